@@ -709,7 +709,20 @@ pub fn run_c08(ctx: &mut Ctx) -> Verdict {
     let base: Option<&str> = if matches!(fl, Flavour::Turtle | Flavour::Trig | Flavour::Gtrig | Flavour::Xml)
         && ctx.tape.flag()
     {
-        Some(["http://example.org/base/doc", "http://example.org", "urn:x:base", "http://[::1]/a/b?q#f"][ctx.tape.below(4)])
+        // (valid absolute IRIs: with and without path, query, fragment; non-ASCII before and
+        // after the fragment delimiter)
+        Some(
+            [
+                "http://example.org/base/doc",
+                "http://example.org",
+                "urn:x:base",
+                "http://[::1]/a/b?q#f",
+                "http://example.org/caf\u{e9}#top",
+                "http://ex\u{e4}mple.org/a%C3%A9#top",
+                "http://example.org/\u{e9}/\u{fc}?q=\u{f6}#\u{df}",
+                "http://example.org/\u{4e2d}\u{6587}/#",
+            ][ctx.tape.below(8)],
+        )
     } else {
         None
     };
